@@ -137,15 +137,31 @@ func (ab *AccessBarrier) doCleanup() {
 	for iter.SeekFirst(); iter.Valid(); iter.Next() {
 		node := iter.GetNode()
 		bs := (*BarrierSession)(node.Item())
-		if bs.seqno != ab.freeSeqno+1 {
+		if bs.seqno != atomic.LoadUint64(&ab.freeSeqno)+1 {
 			return
 		}
 
-		ab.freeSeqno++
+		atomic.AddUint64(&ab.freeSeqno, 1)
 		ab.callb(bs.objectRef)
 		ab.freeq.DeleteNode(node, CompareBS, buf2, &ab.freeq.Stats)
 		ab.numFreed++
 	}
+}
+
+// hasReadySession reports whether the oldest queued session can be destructed now
+func (ab *AccessBarrier) hasReadySession() bool {
+	buf := ab.freeq.MakeBuf()
+	defer ab.freeq.FreeBuf(buf)
+
+	iter := ab.freeq.NewIterator(CompareBS, buf)
+	defer iter.Close()
+
+	iter.SeekFirst()
+	if !iter.Valid() {
+		return false
+	}
+	bs := (*BarrierSession)(iter.Get())
+	return bs.seqno == atomic.LoadUint64(&ab.freeSeqno)+1
 }
 
 // Acquire marks enter of an accessor in the skiplist
@@ -179,9 +195,14 @@ func (ab *AccessBarrier) Release(bs *BarrierSession) {
 				if !ab.freeq.Insert(unsafe.Pointer(bs), CompareBS, buf, &ab.freeq.Stats) {
 					panic("unable to insert barrier session into free list")
 				}
-				if atomic.CompareAndSwapInt32(&ab.isDestructorRunning, 0, 1) {
+				for atomic.CompareAndSwapInt32(&ab.isDestructorRunning, 0, 1) {
 					ab.doCleanup()
 					atomic.CompareAndSwapInt32(&ab.isDestructorRunning, 1, 0)
+					// A session queued while the flag was held found it taken
+					// and gave up; pick it up instead of leaving it pending.
+					if !ab.hasReadySession() {
+						break
+					}
 				}
 			}
 		} else if liveCount < 0 || liveCount == barrierFlushOffset-1 {
